@@ -104,6 +104,15 @@ pub fn errstr_() -> String { String::new() }
 pub trait Serialize {
     fn serialize<S: Serializer>(&self, serializer: S) -> (r: Result<S::Ok, S::Error>)
         requires serializer.ok();
+    /// THE SAME FOREIGN CALL, OBSERVED (device (i), DESIGN section 5): where an attribute value is handed to the value's `serialize`
+    /// (Struct::write_attribute, by a declared rewrite of that one call), the serializer it gets must escape for the quote that
+    /// was just written in front of it -- C13: an attribute value cannot close its own quotes
+    fn serialize_attr_value<'w, W: Write>(&self, serializer: SimpleTypeSerializer<&'w mut W>) -> (r: Result<&'w mut W, SeError>)
+        requires attr_quote_ok((*serializer.writer).out(), serializer.target);
+}
+/// the value position opened by a quote character is escaped for exactly that quote
+pub open spec fn attr_quote_ok(out: BSeq, target: QuoteTarget) -> bool {
+    out.len() > 0 && ((out.last() == 0x22u8 && target is DoubleQAttr) || (out.last() == 0x27u8 && target is SingleQAttr))
 }
 pub trait Serializer: Sized {
     type Ok;
@@ -1560,6 +1569,7 @@ impl<'w, 'k, W: Write> Struct<'w, 'k, W> {
     }
 //@end
 //@extract element::Struct::write_attribute | src/se/element.rs :: impl<'w, 'k, W: Write> Struct<'w, 'k, W> :: fn write_attribute | serves=C13 features=serialize
+//@rewrite value.serialize(SimpleTypeSerializer { ==> value.serialize_attr_value(SimpleTypeSerializer {
     fn write_attribute<T>(&mut self, key: XmlName, value: &T) -> (r: Result<(), SeError>)
     where
         T: ?Sized + Serialize,
@@ -1568,6 +1578,8 @@ impl<'w, 'k, W: Write> Struct<'w, 'k, W> {
             final(self).ser.ser.level == old(self).ser.ser.level,
             final(self).children@ == old(self).children@, final(self).write_indent == old(self).write_indent,
             final(self).ser.ser.indent.st() == old(self).ser.ser.indent.st(),
+            // C13: the value is closed by the quote that opened it (the one its serializer escapes: `serialize_attr_value`)
+            r is Ok ==> (*final(self).ser.ser.writer).out().len() > 0 && (*final(self).ser.ser.writer).out().last() == 0x22u8,
     {
         //TODO: Customization point: each attribute on new line
         self.ser.ser.writer.write_char(' ')?;
@@ -1576,7 +1588,8 @@ impl<'w, 'k, W: Write> Struct<'w, 'k, W> {
 
         //TODO: Customization point: preferred quote style
         self.ser.ser.writer.write_char('"')?;
-        value.serialize(SimpleTypeSerializer {
+        proof { lemma_ascii1('"'); assert((*self.ser.ser.writer).out().last() == 0x22u8); }
+        value.serialize_attr_value(SimpleTypeSerializer {
             writer: &mut self.ser.ser.writer,
             target: QuoteTarget::DoubleQAttr,
             level: self.ser.ser.level,
